@@ -218,6 +218,12 @@ class CompilerState(CoderState):
     def cancel_all_back_references(self):
         self.add_statement(StateMethodCall(get_func_name()))
 
+    def cancel_new_refvals(self):
+        # The cancellation must also happen at runtime: marker operators look
+        # up the new reference values that are in force when they are processed.
+        super(CompilerState, self).cancel_new_refvals()
+        self.add_statement(StateMethodCall(get_func_name()))
+
     def add_bitmap_link(self):
         self.add_statement(StateMethodCall(get_func_name()))
 
